@@ -745,6 +745,76 @@ theorem translated_filters_send_is_model (env : Env) (src : String) (fs : List F
   | rejected => rfl
   | error e => rfl
 
+/-! #### `_dualmethod`, the markers, the constructors of the control-block filters -/
+
+/-- `_dualmethod.__get__` as translated, with `cls()` = the empty DataEdit object and the bound operation
+    = "append the one edit function and return the object" (checked by `dataEditOpSignatures`), IS the
+    model's `dataEditOp` -/
+theorem translated_filters_dualmethod_is_model (inst : Option (List EditOp)) (op : EditOp) :
+    Gen.TrFo.dualGet dataEditNew (fun obj => obj ++ [op]) inst = dataEditOp inst op := by
+  cases inst <;> rfl
+
+/-- called on the CLASS (`instance is None`) the operation runs on a fresh object made by `cls()`;
+    called on an INSTANCE it runs on THAT instance (no new object) -/
+theorem translated_filters_dualmethod_class_or_instance {ι μ : Type} (newInstance : ι) (bind : ι → μ) :
+    Gen.TrFo.dualGet newInstance bind none = bind newInstance ∧
+    ∀ obj, Gen.TrFo.dualGet newInstance bind (some obj) = bind obj := ⟨rfl, fun _ => rfl⟩
+
+/-- hence `DataEdit.a(…).b(…).c(…)` – the first operation on the class, the others on the object it
+    returned – is ONE object whose edit list is `[a, b, c]` in call order -/
+theorem translated_filters_chained_operations_build_the_edit_list (op : EditOp) (ops : List EditOp) :
+    (op :: ops).foldl (fun acc o => some (Gen.TrFo.dualGet dataEditNew (fun obj => obj ++ [o]) acc)) none
+      = some (op :: ops) := by
+  have h : ∀ (l : List EditOp) (rest : List EditOp),
+      rest.foldl (fun acc o => some (Gen.TrFo.dualGet dataEditNew (fun obj => obj ++ [o]) acc)) (some l)
+        = some (l ++ rest) := by
+    intro l rest
+    induction rest generalizing l with
+    | nil => simp
+    | cons o rest ih =>
+      rw [List.foldl_cons]
+      have : Gen.TrFo.dualGet dataEditNew (fun obj => obj ++ [o]) (some l) = l ++ [o] := rfl
+      rw [this, ih]; simp
+  rw [List.foldl_cons]
+  have : Gen.TrFo.dualGet dataEditNew (fun obj => obj ++ [op]) none = [op] := rfl
+  rw [this, h]; rfl
+
+/-- the markers `DataEdit.DELETE` / `DataEdit.REJECT` are two separate fresh objects (`object()`): identical
+    to nothing a function can otherwise return and not to each other – the model's `ModRes.delete` /
+    `ModRes.reject` next to `ModRes.value v` -/
+theorem translated_filters_sentinels :
+    Gen.TrFo.dataEditSentinels = [("DELETE", "object()"), ("REJECT", "object()")] := by decide
+
+/-- `IfOutput.__init__` stores the reference in `_ctrl_blk` and registers that attribute with the circuit's
+    resolver without a type requirement beyond the resolver's default (any `Block`) -/
+theorem translated_filters_if_output_init_is_model :
+    Gen.TrFo.ifOutputInit = ifOutputRef ∧ Gen.TrFo.resolverDefaultBlockType = .block := ⟨rfl, rfl⟩
+
+/-- `IfNotIitialized.__init__` registers the reference with `block_type=block.SBlock` -/
+theorem translated_filters_if_not_initialized_init_is_model :
+    Gen.TrFo.ifNotInitInit = ifNotInitializedRef := rfl
+
+/-- consequences stated outright: a combinational block is refused as the control block of
+    `IfNotIitialized` (TypeError), a sequential one accepted; `IfOutput` takes every block -/
+theorem translated_filters_control_block_type_requirement (ctrl : String) :
+    Gen.TrFo.ifNotInitInit.blockType.admits .cblock = false ∧
+    Gen.TrFo.ifNotInitInit.blockType.admits .sblock = true ∧
+    (∀ k, Gen.TrFo.ifOutputInit.blockType.admits k = true) ∧
+    Filter.mkIfNotInitialized .cblock ctrl = .error .typeError ∧
+    Filter.mkIfNotInitialized .sblock ctrl = .ok (.ifNotInitialized ctrl) ∧
+    (∀ k, Filter.mkIfOutput k ctrl = .ok (.ifOutput ctrl)) := by
+  refine ⟨rfl, rfl, fun k => by cases k <;> rfl, rfl, rfl, fun k => by cases k <;> rfl⟩
+
+/-- the attribute that is assigned, the attribute that is registered and the attribute `__call__` asserts
+    on (and reads: `self._ctrl_blk.output` / `.is_initialized()` in the translated calls) are the same, and
+    `__call__` asserts exactly the registered block type -/
+theorem translated_filters_control_refs_consistent :
+    Gen.TrFo.ifOutputInit.stored = Gen.TrFo.ifOutputInit.registered ∧
+    Gen.TrFo.ifOutputAsserts = some (Gen.TrFo.ifOutputInit.registered, Gen.TrFo.ifOutputInit.blockType) ∧
+    Gen.TrFo.ifNotInitInit.stored = Gen.TrFo.ifNotInitInit.registered ∧
+    Gen.TrFo.ifNotInitAsserts = some (Gen.TrFo.ifNotInitInit.registered, Gen.TrFo.ifNotInitInit.blockType) := by
+  decide
+
 /-- non-vacuity: a pipeline of plain filters -/
 example : ∀ f ∈ [Filters.Filter.notFromUndef, .ifOutput "c", .dataEdit [.add [("a", Val.int 1)]]],
     PlainFilter (fun _ => Val.int 1) f := by
